@@ -205,6 +205,14 @@ func (r *rcv) Receive(c *actor.Context) {
 			w.mu.Lock()
 			w.childPIDs = append(w.childPIDs, kids)
 			w.mu.Unlock()
+		} else if !first && w.spec.Children > 0 && w.spec.RespawnKids {
+			// a Started handler that spawns its fixed-id children unconditionally: after a restart the
+			// ids are taken (the children outlive a restart), the spawns are refused as duplicates,
+			// and the live children stay the children of this actor
+			for i := 0; i < w.spec.Children; i++ {
+				i := i
+				c.SpawnChild(func() actor.Receiver { return &childRcv{w: w, idx: 100 + i, parentInc: r.inc} }, "kid", actor.WithID(fmt.Sprint(i)))
+			}
 		}
 		if w.pendGate.CompareAndSwap(true, false) {
 			w.gateIn <- struct{}{}
